@@ -171,8 +171,8 @@ class Field:
 # ---------------------------------------------------------------------------------------------
 # system generator
 # ---------------------------------------------------------------------------------------------
-LABELS = ["A", "B", "C", "X1"]
-ENVS = ["a", "b", "cyt"]
+LABELS = ["C", "A", "B", "X1"]          # declaration order is NOT alphabetical (tables built over sorted labels show)
+ENVS = ["membrane", "cytosol", "b"]   # declaration order is NOT alphabetical
 
 
 def gen_reaction_sides(rng, ns, max_order):
